@@ -1178,9 +1178,6 @@ theorem stdmodel_sum8_note (M : FlModel) (hu : M.u = 1 / 2 ^ 53) (x : List (Fl M
   refine le_trans (sum8_error x hlt) (mul_le_mul_of_nonneg_right hγ ?_)
   exact List.sum_nonneg (by intro a ha; obtain ⟨b, _, rfl⟩ := List.mem_map.mp ha; exact abs_nonneg b)
 
-/-- deprecated alias of `stdmodel_sum8_note` (the `f64_` prefix wrongly suggested a statement about IEEE binary64; kept only
-until the `REQUIRED_THEOREMS` wiring is updated) -/
-alias f64_sum8_note := stdmodel_sum8_note
 
 
 /-! ### Non-vacuity: concrete models and concrete inputs -/
